@@ -698,7 +698,8 @@ def run_twin(c1: dict, c2: dict, seed: int, names: Names, out: dict) -> None:
 
 def _shape_of(x: Any) -> Any:
     if isinstance(x, dict):
-        return ("dict", tuple(sorted((repr(k), _shape_of(v)) for k, v in x.items())))
+        # (keys are compared as values: a key given as a member of a str-mixin Enum is the key "its value")
+        return ("dict", tuple(sorted((repr(str.__str__(k)) if isinstance(k, str) else repr(k), _shape_of(v)) for k, v in x.items())))
     if isinstance(x, (list, tuple)):
         return ("list", tuple(_shape_of(v) for v in x))
     return type(x).__name__
